@@ -80,6 +80,9 @@ def run(module, cfg=None, workers=16, env=None, timeout=1800, simulate=None, dep
             m2 = re.match(r"^(\d+) states generated, (\d+) distinct states found", line)
             if m2:
                 res.generated = int(m2.group(1)); res.distinct = int(m2.group(2))
+            m2s = re.match(r"^The number of states generated: (\d+)", line)
+            if m2s and not res.generated:
+                res.generated = int(m2s.group(1)); res.distinct = res.distinct or int(m2s.group(1))
             m3 = re.match(r"^The depth of the complete state graph search is (\d+)", line)
             if m3: res.depth = int(m3.group(1))
             if line.startswith("Error:"):
